@@ -10,7 +10,7 @@ MEM_KB = 14 * 1024 * 1024
 
 DEFAULT_CHECKS = ['--bounds-check', '--pointer-check', '--pointer-overflow-check',
                   '--signed-overflow-check', '--undefined-shift-check',
-                  '--div-by-zero-check', '--pointer-primitive-check']
+                  '--div-by-zero-check']
 
 C_KEYWORDS = set('''auto break case char const continue default do double else enum extern float for goto if
 inline int long register restrict return short signed sizeof static struct switch typedef union unsigned
@@ -486,7 +486,12 @@ def run_unit(unit, tier='quick', keep_dir=None):
             return res
         obs = res.obligations
         reach = [o for o in obs if o['description'] == 'REACH']
-        failing = [o for o in obs if o['status'] != 'SUCCESS' and o['description'] != 'REACH']
+        failing = [o for o in obs if o['status'] == 'FAILURE' and o['description'] != 'REACH']
+        unknown = [o for o in obs if o['status'] not in ('SUCCESS', 'FAILURE')]
+        if unknown:
+            res.status = 'undecided'
+            res.detail += '%d obligations with status %s (solver gave no verdict); ' % (len(unknown), unknown[0]['status'])
+            return res
         if unit.reach:
             if not reach:
                 res.status = 'error'
